@@ -57,6 +57,9 @@ def scenarios(ctx: Ctx, res: Result):
     for sc in gc.long_run_family():
         res.count('long_run_family')
         yield sc
+    for sc in gc.stale_snapshot_in_pass_family():
+        res.count('stale_snapshot_in_pass_family')
+        yield sc
     for sc in gc.change_during_backlog_retry_family():
         res.count('change_during_backlog_retry_family')
         yield sc
